@@ -190,8 +190,12 @@ def build_requests(rng, cfg, apaths, app_paths, quick):
                 ascii_ok = all(all(32 <= ord(c) < 127 for c in x) and x == x.strip() and x != "" for x in a)
                 transport = "grpc" if (ascii_ok and rng.random() < 0.6) else "inproc"
                 ep = r["endpoint"]
-                eshape = rng.choices(["plain", "padded", "unknown", "slash", "empty"], [12, 2, 1, 1, 1])[0]
-                if eshape == "padded":
+                eshape = rng.choices(["plain", "padded", "unknown", "slash", "empty", "prefixed"], [12, 2, 1, 1, 1, 3 if pp else 0])[0]
+                if eshape == "prefixed":
+                    # the endpoint as the HTTP pull API spells it (pull_api.prefix + endpoint): over gRPC the endpoint is the bare
+                    # pull path - this spelling names no endpoint, whatever token comes with it
+                    ep = pp + ep
+                elif eshape == "padded":
                     ep = " " + ep + "\t"
                 elif eshape == "unknown":
                     ep = ep + "-nope"
